@@ -4,22 +4,141 @@ U = ["src/length-prefix.c", "src/variable-length-integer.c", "src/byte-buffer.c"
 UB = U + ["src/endpoints/buffer.c"]
 
 INFO = {
-    "explanation": "",
-    "bounds": {},
-    "outside_bounds": [],
-    "stubs": [],
-    "assumptions": [],
+    "explanation": "Three harness families over the real src/length-prefix.c (+ variable-length-integer.c, "
+                   "byte-buffer.c, endpoints/core.c, endpoints/buffer.c), oracle = reference framing written from the "
+                   "property text (c13_ref.h: LEB128 / 1 octet / 16,32-bit LE,BE; maxima SSIZE_MAX,255,65535,2^32-1). "
+                   "(1) c13_range_*: one instance per entry point (flenp_memory_encode, flenp_buffer_encode(_n), "
+                   "flenp_chunks_use, flenp_memory_to_sink, flenp_buffer_to_sink(_n), flenp_chunks_to_sink, "
+                   "flenp_memory_from_source, flenp_buffer_from_source), kind symbolic, lengths / ByteBuffer fields / "
+                   "chunk fields / destination capacity symbolic over (almost) the whole 64-bit range. No payload octet "
+                   "is moved: the sink compares every put against the expected stream (prefix octets, then references "
+                   "into the payload objects: object, start, length), the source serves the prefix and records where "
+                   "the payload is to be deposited. Decides: prefix encoding for every length, refusal beyond the "
+                   "kind's maximum before anything is emitted, reported total, which octets are designated (pointer "
+                   "identity), offset advance of the _n variants, decode length / destination address / -ENOMEM / no "
+                   "deposit past the destination. "
+                   "(2) c13_enc_*: the four *_to_sink encoders write into the library's buffer sink (and an octet "
+                   "sink) of symbolic capacity and fill; payload <= NP octets with symbolic contents, symbolic "
+                   "ByteBuffer state, symbolic chunk-list shape (0..3 chunks, active index, empty chunks): sink "
+                   "contents == prefix || designated octets, total, nothing else written, sources unchanged. "
+                   "(3) c13_dec_*: two reference frames back to back decoded by flenp_memory_from_source / "
+                   "flenp_buffer_from_source / flenp_decode_source_to_sink into real memory with canaries, capacity "
+                   "symbolic around the length; source = library buffer source (full reads) or a scripted source that "
+                   "serves 1..3 octets per read as chosen by the solver for every read.",
+    "bounds": {
+        "quick": {"range": "lengths and buffer fields full 64 bit (offsets entering pointer arithmetic <= 2^33, "
+                           "single chunk <= 2^62); chunk list shape 3 chunks / active 0",
+                  "enc": "NP=4: buffer memory 6, 3 chunks x 2 octets, sink capacity 1..11, 0..1 octets pre-filled; "
+                         "octet sink only for the from-memory encoder",
+                  "dec": "payloads 1..NP, NP = 4 (memory, buffer; full reads), 2 (sink; full reads), 2 (memory, "
+                         "buffer; fragmented), 1 (sink; fragmented); capacities 0..2NP+2; 0..2 octets pre-filled"},
+        "thorough": {"range": "as quick, chunk list shapes (3,0) (3,1) (3,2) (2,0) (1,0)",
+                     "enc": "NP=8: buffer memory 10, 3 chunks x 4 octets, sink capacity 1..17; octet sink for all "
+                            "four encoders",
+                     "dec": "NP = 8 (memory, buffer; full reads), 6 (sink; full reads), 6 / 5 / 4 (memory / buffer "
+                            "/ sink; fragmented)"},
+    },
+    "outside_bounds": [
+        "moving payloads longer than NP octets (the copy loops are byte_buffer_add / memcpy / the endpoint loops, "
+        "see C17/C18); the 255/65535-octet payloads are covered at the pointer level only (range instances)",
+        "chunk lists with more than 3 chunks; symbolic list shape only for payloads <= NP",
+        "payload length 0 (the property starts at 1): executed for memory safety, no functional assertion",
+        "sources or sinks that fail, return 0, -EINTR or -EAGAIN (C17)",
+        "flenp_decode_source_to_sink with getbuffer-extension endpoints (only the octet-wise path is exercised)",
+        "frames whose prefix declares more than the kind's encoder maximum (varint > SSIZE_MAX) on the decode side",
+        "32-bit size_t / big-endian hosts",
+    ],
+    "stubs": [
+        "memcpy/memmove/memset: exact byte loops (harness/lib/libc_models.c)",
+        "range instances: comparing chunk sink (accepts every put completely), virtual source (serves the reference "
+        "prefix, then accepts payload deposits by reference); payload objects are virtual (16-octet objects, "
+        "never dereferenced by the framing code)",
+        "enc instances: octet sink writing into the wire array (-ENOMEM when full)",
+        "dec instances: scripted fragmenting chunk source (1..3 octets per read, -ENODATA at the end)",
+    ],
+    "assumptions": [
+        "ByteBuffer arguments satisfy offset <= used <= size; chunks before `active` are fully consumed",
+        "_n variants are called with n <= unread octets",
+        "the sum of the unread octets of a chunk list does not wrap size_t (each chunk <= 2^62)",
+        "range instances: the framing code hands payload octets to the endpoint by reference and does not read or "
+        "write them itself (true of any zero-copy length-prefix framer; a framer that staged the payload would show "
+        "up as an out-of-bounds access, not as a silent pass)",
+        "range instances: destination memory capacity <= SSIZE_MAX",
+    ],
 }
 
 RANGE_UNWIND = {"c13_ref_prefix": 11, "varint_encode": 11, "varint_from_source": 11,
-                "rec_sink": 11, "vsrc_read": 11, "which_region": 7, "harness": 5,
-                "check_prefix_buffer": 11, "expect_sink": 5,
-                "source_get_chunk": 3, "sink_put_chunk": 3, "flenp_chunks_to_sink": 5,
+                "rec_sink": 11, "vsrc_read": 11, "which_region": 7, "harness": 7, "run_kind": 5,
+                "check_prefix_buffer": 11, "expect_sink": 5, "memset": 200,
+                "source_get_chunk": 2, "sink_put_chunk": 2, "flenp_chunks_to_sink": 5,
                 "flenp_chunks_use": 5}
+EPS = ["memory_encode", "buffer_encode", "buffer_encode_n", "chunks_use", "memory_to_sink",
+       "buffer_to_sink", "buffer_to_sink_n", "chunks_to_sink", "memory_from_source",
+       "buffer_from_source"]
+
+
+ENC_EPS = ["memory", "buffer", "buffer_n", "chunks"]
+
+
+def enc_unwind(np_, ep):
+    sz = np_ + 2
+    cs = (sz + 2) // 3
+    maxt = 3 * cs
+    wire = 2 + 4 + maxt + 1 + 2
+    # memcpy / sink_adapt: longest legal put is the longest payload piece or the prefix
+    piece = max(cs if ep == "chunks" else sz, 4)
+    return {"memcpy": piece + 1, "harness": wire + 2, "c13_ref_prefix": 11, "varint_encode": 11,
+            "sink_put_chunk": 2, "sink_adapt": piece + 1, "flenp_chunks_to_sink": 5}
+
+
+DSTS = ["memory", "buffer", "sink"]
+SRCS = ["fullreads", "fragmented"]
+
+
+def dec_unwind(np_, src):
+    dsz = 2 * np_ + 2
+    wmax = 2 * (4 + np_)
+    return {"harness": max(dsz + 4, wmax + 2) + 2, "c13_ref_prefix": 11, "frag_read": 4,
+            "memcpy": max(np_, 4) + 1,
+            # lengths are < 128 here: the varint prefix is one octet
+            "varint_from_source": 2,
+            "source_get_chunk": 2 if src == 0 else max(np_, 4) + 1,
+            "sink_put_chunk": 2, "sts_n": np_ + 2}
 
 
 def instances(tier):
     out = []
-    out.append(mk("c13_range", "C13/c13_range.c", U, {}, unwind=RANGE_UNWIND, default_unwind=3,
-                  fp_removal=True))
+    np_ = 4 if tier == "quick" else 8
+    # decoders: payload bound per (destination, source); the fragmenting source and the
+    # octet-wise source-to-sink plumbing are the expensive ones
+    if tier == "quick":
+        dec_np = {("memory", 0): 4, ("buffer", 0): 4, ("sink", 0): 2,
+                  ("memory", 1): 2, ("buffer", 1): 2, ("sink", 1): 1}
+    else:
+        dec_np = {("memory", 0): 8, ("buffer", 0): 8, ("sink", 0): 6,
+                  ("memory", 1): 6, ("buffer", 1): 5, ("sink", 1): 4}
+    for d, dn in enumerate(DSTS):
+        for sr, sn in enumerate(SRCS):
+            n = dec_np[(dn, sr)]
+            out.append(mk("c13_dec_%s_%s_np%d" % (dn, sn, n), "C13/c13_dec.c", UB,
+                          {"DST": d, "SRC": sr, "NP": n}, unwind=dec_unwind(n, sr),
+                          default_unwind=3, fp_removal=True, timeout=1700))
+    for i, ep in enumerate(ENC_EPS):
+        out.append(mk("c13_enc_%s_np%d" % (ep, np_), "C13/c13_enc.c", UB, {"EP": i, "NP": np_},
+                      unwind=enc_unwind(np_, ep), default_unwind=3, fp_removal=True))
+        if tier == "quick" and ep != "memory":
+            continue  # octet sink x other entry points: thorough only
+        out.append(mk("c13_enc_%s_octetsink_np%d" % (ep, np_), "C13/c13_enc.c", UB,
+                      {"EP": i, "NP": np_, "SINK_OCTET": None},
+                      unwind=enc_unwind(np_, ep), default_unwind=3, fp_removal=True))
+    for i, ep in enumerate(EPS):
+        shapes = [(3, 0)]
+        if ep.startswith("chunks") and tier != "quick":
+            shapes = [(3, 0), (3, 1), (3, 2), (2, 0), (1, 0)]
+        for (nc, act) in shapes:
+            name = "c13_range_%s" % ep
+            if ep.startswith("chunks"):
+                name += "_%dchunks_active%d" % (nc, act)
+            out.append(mk(name, "C13/c13_range.c", U, {"EP": i, "NCHUNKS": nc, "ACTIVE": act},
+                          unwind=RANGE_UNWIND, default_unwind=3, fp_removal=True, timeout=1700))
     return out
